@@ -16,7 +16,7 @@ Shapes == {"unit", "field1", "named", "tuple0", "field2"}
 
 AttrForms == {"tok_ok", "rx_ok", "rx_cb_ok", "rx_greedy_allowed", "no_attr", "two_attrs_ok",
               \* not implementable faithfully
-              "rx_nullable", "tok_empty", "rx_nullable_sub", "rx_only_look", "rx_lookstart", "rx_wordb_start",
+              "rx_nullable", "rx_nullable_prio", "rx_nullable_alt_prio", "tok_empty", "tok_empty_prio", "rx_nullable_sub", "rx_only_look", "rx_lookstart", "rx_wordb_start",
               "rx_greedy", "rx_greedy_class", "rx_undef_sub", "rx_uni_wordb",
               \* not UTF-8 (implementable only with utf8 = false)
               "rx_nonutf8", "tok_nonutf8",
@@ -32,7 +32,7 @@ EnumForms == {"plain", "extras", "error_ty", "error_cb", "skip_ok", "skip_group"
               "gen_two_lt_no_attr", "gen_lt_undeclared", "gen_lt_dup", "gen_type_missing", "gen_type_undeclared", "gen_type_dup",
               \* malformed / duplicated
               "dup_extras", "dup_error", "dup_utf8", "unknown_logos", "logos_no_parens", "bad_utf8_val", "skip_nullable", "skip_bad_lit",
-              "skip_nonutf8", "skip_nonutf8_group", "skip_greedy", "skip_undef_sub", "skip_lookstart",
+              "skip_nonutf8", "skip_nonutf8_group", "skip_nullable_prio", "skip_greedy", "skip_undef_sub", "skip_lookstart",
               "sub_dup", "sub_bad_name", "sub_undef_ref", "sub_nonutf8", "source_deprecated", "error_attr_variant", "const_generic", "dup_error_cb"}
 
 Seconds == {"none", "other_ok", "same_tok", "overlap_same_prio"}
